@@ -581,7 +581,7 @@ def _numeval(t, env, mp, memo):
             a = mp.mpf(1) / (2 + abs(a)) if abs(a) > 1 else a     # keep the principal branch defined
             v = getattr(mp, t[1])(a)
         elif t[1] == "sqrt":
-            v = mp.sqrt(abs(a))
+            v = mp.sqrt(a)                 # complex for a negative argument: sqrt(x)**2 == x still holds there
         else:
             v = getattr(mp, t[1])(a)
     elif h == "call" and t[1] in ("red", "pos") and len(t) == 3:
